@@ -78,6 +78,9 @@ func NewStrListDecoder(reuseRecords bool) *StrListDecoder {
 }
 
 func (d *StrListDecoder) strSlice(n uint32) []string {
+	if n > maxPrealloc {
+		n = maxPrealloc
+	}
 	if d.strs != nil {
 		if n > uint32(cap(d.strs)) {
 			d.strs = make([]string, 0, n)
